@@ -52,6 +52,12 @@ def cases(tier, seed):
         out.append(dict(kind="coupled", surfaces=[dict(name="wing", symmetry=True, mesh=spec, fem_model_type="tube" if k % 2 else "wingbox",
                                                        exact_failure_constraint=bool(k % 3 == 0))],
                         flow=dict(alpha=float(np.round(rng.uniform(-2, 8), 2)), v=float(rng.uniform(50, 160)), rho=float(rng.uniform(0.3, 0.8))), _cost=6))
+    # single deformation modes prescribed directly on straight spars of arbitrary direction (the relative end rotation is exactly
+    # parallel / perpendicular to the element axis, the element stretches without rotating): each stress is one closed-form term
+    n = 18 if tier == "quick" else 540
+    for k in range(n):
+        out.append(dict(kind="modes", fem="tube", ny=int(rng.choice([2, 3, 6, 11, 24])), seed=int(rng.integers(1 << 30)),
+                        direction=["random", "y", "swept", "swept_dihedral"][k % 4]))
     return out
 
 
@@ -158,6 +164,57 @@ def run_funcs(c, o):
         o.close("vm/upper_skin_factor", s1[:, [0, 3]] * c["tssf"], sref[:, [0, 3]], rtol=1e-10)
         o.close("vm/upper_skin_factor", s1[:, [1, 2]], sref[:, [1, 2]], rtol=1e-12)
     o.nontrivial = bool(s1.max() > 0)
+
+
+def run_modes(c, o):
+    rng = np.random.default_rng(c["seed"])
+    ny = c["ny"]
+    d = {"random": rng.normal(size=3), "y": np.array([0.0, 1.0, 0.0]), "swept": np.array([np.tan(np.deg2rad(rng.uniform(5, 45))), 1.0, 0.0]),
+         "swept_dihedral": np.array([np.tan(np.deg2rad(rng.uniform(5, 45))), 1.0, np.tan(np.deg2rad(rng.uniform(2, 15)))])}[c["direction"]]
+    if abs(d[1]) < 0.2 * np.linalg.norm(d):
+        d[1] = np.sign(d[1] or 1.0) * np.linalg.norm(d)  # not aligned with x (the property's quantifier)
+    d = d / np.linalg.norm(d)
+    s_ = np.concatenate([[0.0], np.cumsum(rng.uniform(0.3, 2.0, ny - 1))])
+    nodes = rng.normal(size=3) * 3 + np.outer(s_, d)
+    L = np.diff(s_)
+    E, G = 7e10, 3e10
+    p, surf = funcs_problem("tube", nodes, False, True, 1.0, 3e8, E, G)
+    r = 10 ** rng.uniform(-2, -0.5, ny - 1)
+    p.set_val("radius", r)
+    p.set_val("thickness", r * 0.1)
+    o.tags = ["modes", c["direction"]]
+
+    def vm(disp):
+        p.set_val("disp", disp)
+        zoo.run(p)
+        return np.array(p.get_val("vonmises")).copy()
+
+    nrm = np.cross(d, rng.normal(size=3))
+    nrm /= np.linalg.norm(nrm)
+    for scale in (1.0, 10 ** rng.uniform(-6, -1)):
+        th = np.cumsum(rng.normal(size=ny)) * scale
+        # twist about the spar axis
+        s1 = vm(np.hstack([np.zeros((ny, 3)), np.outer(th, d)]))
+        ref = np.sqrt(3.0) * G * r * np.abs(np.diff(th)) / L
+        o.true("modes/finite", bool(np.all(np.isfinite(s1))), "non-finite von Mises stress under pure twist of a straight spar along %s" % np.round(d, 4).tolist(),
+               n_nan=int(np.sum(~np.isfinite(s1))))
+        o.close("modes/pure_torsion", s1, np.column_stack([ref, ref]), rtol=1e-9, scale=ref.max())
+        # stretch along the axis
+        s2 = vm(np.hstack([np.outer(th, d), np.zeros((ny, 3))]))
+        ref = E * np.abs(np.diff(th)) / L
+        o.true("modes/finite", bool(np.all(np.isfinite(s2))), "non-finite von Mises stress under pure stretch")
+        o.close("modes/pure_axial", s2, np.column_stack([ref, ref]), rtol=1e-9, scale=ref.max())
+        # relative end rotation perpendicular to the axis (curvature), no stretch
+        s3 = vm(np.hstack([np.zeros((ny, 3)), np.outer(th, nrm)]))
+        ref = E * r * np.abs(np.diff(th)) / L
+        o.true("modes/finite", bool(np.all(np.isfinite(s3))), "non-finite von Mises stress under pure curvature")
+        o.close("modes/pure_bending", s3, np.column_stack([ref, ref]), rtol=1e-9, scale=ref.max())
+        # twist plus a rigid-body motion
+        thr = rng.normal(size=3) * 1e-3
+        rigid = np.hstack([np.cross(thr, nodes - nodes[0]), np.tile(thr, (ny, 1))])
+        s4 = vm(np.hstack([np.zeros((ny, 3)), np.outer(th, d)]) + rigid)
+        o.true("modes/finite", bool(np.all(np.isfinite(s4))), "non-finite von Mises stress under twist plus rigid-body motion", n_nan=int(np.sum(~np.isfinite(s4))))
+    o.nontrivial = True
 
 
 def run_ks(c, o):
@@ -313,7 +370,7 @@ def run_coupled(c, o):
 
 def run_case(c):
     o = Obs()
-    {"funcs": run_funcs, "ks": run_ks, "closed": run_closed, "coupled": run_coupled}[c["kind"]](c, o)
+    {"funcs": run_funcs, "ks": run_ks, "closed": run_closed, "coupled": run_coupled, "modes": run_modes}[c["kind"]](c, o)
     return o
 
 
